@@ -57,10 +57,12 @@ TESTED_NOT_PROVED = [
     "string level: RDKit parsing of the unmapped side gives the implicit-hydrogen form of the mapped side (monitored: isomorphism bit in the oracle), "
     "serialisation of the glued ITS (_to_smarts) and Standardize.fit - the property oracle runs the whole chain",
     "the identity match survives the pruning by rule automorphisms up to an equivalent match (oracle: a regenerating ITS is in its_list)",
-    "default (explicit-hydrogen) mode: that the rule prepared by _strip_explicit_h describes the pair of implicit-hydrogen sides is VALIDATED per case "
-    "(boolean describesb, computed by the model and independently by the harness; C04_identity_glue_any_rule then gives the regeneration before "
-    "_explicit_h), not proved from the precondition; fails by construction for reactions with H2 (its hydrogens are folded on one side only): those "
-    "and the _explicit_h stage are covered by the correspondence and the oracle only",
+    "default (explicit-hydrogen) mode: proved from the boolean precondition default_okb up to the ITS BEFORE _explicit_h (C04_identity_glue_default); "
+    "outside default_okb (spectator hydrogens written explicitly with a centre template, H2 / H+) the premise 'the prepared rule describes the pair' is "
+    "VALIDATED per case (describesb, model + harness; C04_identity_glue_any_rule); the _explicit_h stage and the H2 re-match path are covered by the "
+    "correspondence and the oracle only",
+    "SynReactor as an object: repeated / reordered reads of lazily cached attributes, shared template / SynRule / substrate objects, hand-over forms and "
+    "options (history cases: every step compared with a fresh evaluation; the model is pure)",
     "invariance under atom-map renumbering and SMILES rewriting: every case is run on rewritten inputs (C05 states the equivariance)",
 ]
 
@@ -790,14 +792,16 @@ LEVEL_TEXT = ("Machine-checked proof (Coq) over an executable model of the round
               "SynRule preparation, _invert_template) -> application to the reaction's own reactants / products (pattern preparation, "
               "SynReactor._glue_graph along the identity match): for every balanced pair of graphs written with implicit hydrogens the identity "
               "is a valid match of the prepared pattern and the glued ITS decomposes to the reaction again, for the full ITS as template always "
-              "and for the centre exactly when no atom outside the centre changes charge or hydrogen count, forwards and backwards; and for any "
-              "rule in either hydrogen mode that passes the boolean check 'describes the pair' (evaluated on every case). The model is "
+              "and for the centre exactly when no atom outside the centre changes charge or hydrogen count, forwards and backwards; the same in the "
+              "default mode for reactions written with explicit hydrogens (rule preparation by _strip_explicit_h included, result before "
+              "_explicit_h); for any rule in either mode that passes the boolean check 'describes the pair'; and for the identity composed with "
+              "any symmetry of the rule (what the pruning may keep). The model is "
               "tied to the Python code by comparing every intermediate graph (before RDKit serialisation) on corpus reactions, their atom-map "
               "renumberings and SMILES rewritings on every run; the property itself is run end to end by an independent oracle.")
 LEVEL_NOTE = ("Trusted: Coq kernel + vm_compute; the hand-written models and harness encoders; RDKit parsing and VF2 matching are oracle inputs "
               "(identity-in-raw-matches is compared with the model's match validity). Tested, not proved: in the default explicit-hydrogen mode the "
-              "premise that the stripped rule describes the pair is validated per case, not derived from the precondition, and the _explicit_h stage "
-              "(re-materialised hydrogens) is compared only; survival of the identity match under automorphism pruning, RDKit serialisation and "
+              "proof stops before _explicit_h (re-materialised hydrogens are compared only) and needs every explicit hydrogen to be a template atom "
+              "(otherwise the premise is validated per case); object state of SynReactor (history cases); survival of the identity match under automorphism pruning, RDKit serialisation and "
               "Standardize.fit, invariance under renumbering / rewriting (run on rewritten inputs). Known: centre templates cannot regenerate "
               "reactions with a charge / hydrogen change away from any changed bond (56 ecoli reactions); explicit-hydrogen re-matching fails for "
               "a backwards template that keeps H2 explicit (usp#21).")
